@@ -42,6 +42,12 @@ def main():
             if rc:
                 return {"build_rc": rc, "out": out[-800:]}
             exe = "./run.sh" if os.path.exists(os.path.join(demo_dir, "run.sh")) else "./demo"
+            if exe == "./demo" and not os.path.exists(os.path.join(demo_dir, "demo")):
+                # the agent's build script put the binary elsewhere: take its -o argument
+                import re
+                m = re.findall(r"-o\s+(\S+)", open(os.path.join(demo_dir, "build.sh")).read())
+                if m:
+                    exe = m[-1]
             fails = 0
             runs = int(os.environ.get("CONFIRM_RUNS", "5"))
             last = ""
